@@ -177,6 +177,8 @@ def aCall (c : WCtx) (f : Name) (args : List (V AO)) (_kw : List (Name × V AO))
     | [.bytes _] => (.error (.exc xTypeError 0), st)
     | [.none] => (.error (.exc xTypeError 0), st)
     | _ => (raiseX xUnsupported, st)
+  else if f = 0x4f766572666c6f774572726f72 then      -- OverflowError(...)
+    (.ok (.exc xOverflowError 0), st)
   else (raiseX xUnsupported, st)
 
 def aMcall (c : WCtx) (obj : V AO) (m : Name) (args : List (V AO)) (_kw : List (Name × V AO)) (st : ASt) :
@@ -199,6 +201,17 @@ def aMcall (c : WCtx) (obj : V AO) (m : Name) (args : List (V AO)) (_kw : List (
     else if m = mIter then                           -- for key in dict
       match args with
       | [] => (.ok (.tuple (items.map (fun i => V.str (Item.key i)))), st)
+      | _ => (raiseX xUnsupported, st)
+    else (raiseX xUnsupported, st)
+  | .host (.flags l) =>
+    if m = 0x6974656d73 ∧ args.isEmpty then          -- bdict.items()
+      (.ok (.tuple (l.map (fun kt => V.tuple [.str kt.1, .host (.ty kt.2)]))), st)
+    else (raiseX xUnsupported, st)
+  | .int n =>
+    if m = 0x746f5f6279746573 then                   -- bitfield.to_bytes(bsiz, "little")
+      match args with
+      | [.int size, .str 0x6c6974746c65] =>
+        if 0 ≤ size then (encR .bytes (intToBytes n size.toNat false), st) else (raiseX xUnsupported, st)
       | _ => (raiseX xUnsupported, st)
     else (raiseX xUnsupported, st)
   | .host .self =>
@@ -333,9 +346,9 @@ def walkHost (c : WCtx) (cls id : Bytes) (mode : Nat) : Host AO ASt where
 /-! ### the walker interpreted as a whole
 
 `recHost … f`: like `walkHost`, but the walker methods called on `self` are the *translated* methods again, interpreted under
-`recHost … (f - 1)` — `f` bounds the depth of method calls (two per nesting level of groups). `_set_attribute_bitfield` and
-`_set_attribute_cfgval` stay the model's `wBits` / `wCfgVal` (their own ties are `Proofs/CodeBits.lean`, `Proofs/CodeCfgVal.lean`,
-over hosts of their own). -/
+`recHost … (f - 1)` — `f` bounds the depth of method calls (two per nesting level of groups, two more for a bitfield's flags).
+`_set_attribute_bitfield` / `_set_attribute_bits` are interpreted too; `_set_attribute_cfgval` stays the model's `wCfgVal`
+(its own tie is `Proofs/CodeCfgVal.lean`, over a host of its own). -/
 
 def mSetAttr : Name := 0x5f7365745f617474726962757465
 def mSingle : Name := 0x5f7365745f6174747269627574655f73696e676c65
@@ -343,6 +356,7 @@ def mBitfield : Name := 0x5f7365745f6174747269627574655f6269746669656c64
 def mGroup : Name := 0x5f7365745f6174747269627574655f67726f7570
 def mCfgval : Name := 0x5f7365745f6174747269627574655f63666776616c
 def mCalc : Name := 0x5f63616c635f6e756d5f72657065617473
+def mBits : Name := 0x5f7365745f6174747269627574655f62697473
 
 def recMcall (c : WCtx) (cls id : Bytes) (mode : Nat) (F : Nat) :
     Nat → V AO → Name → List (V AO) → List (Name × V AO) → ASt → X AO (V AO) × ASt
@@ -350,13 +364,15 @@ def recMcall (c : WCtx) (cls id : Bytes) (mode : Nat) (F : Nat) :
     match obj with
     | .host .self =>
       (match f with
-       | 0 => if m = mSetAttr ∨ m = mSingle ∨ m = mGroup ∨ m = mCalc then (raiseX xFuel, st) else aMcall c obj m args kw st
+       | 0 => if m = mSetAttr ∨ m = mSingle ∨ m = mGroup ∨ m = mCalc ∨ m = mBitfield ∨ m = mBits then (raiseX xFuel, st) else aMcall c obj m args kw st
        | f'+1 =>
          let H : Host AO ASt := { walkHost c cls id mode with mcall := recMcall c cls id mode F f' }
          if m = mSetAttr then runFn H F fn_UBXMessage__set_attribute (.host .self :: args) st
          else if m = mSingle then runFn H F fn_UBXMessage__set_attribute_single (.host .self :: args) st
          else if m = mGroup then runFn H F fn_UBXMessage__set_attribute_group (.host .self :: args) st
          else if m = mCalc then runFn H F fn_UBXMessage__calc_num_repeats (.host .self :: args) st
+         else if m = mBitfield then runFn H F fn_UBXMessage__set_attribute_bitfield (.host .self :: args) st
+         else if m = mBits then runFn H F fn_UBXMessage__set_attribute_bits (.host .self :: args) st
          else aMcall c obj m args kw st)
     | _ => aMcall c obj m args kw st
 
@@ -374,8 +390,8 @@ structure WalkLike (c : WCtx) (cls id : Bytes) (mode : Nat) (H : Host AO ASt) : 
   eqHost : H.eqHost = aEq
   mcall_kw : ∀ m args kw st, H.mcall (.host .kwargs) m args kw st = aMcall c (.host .kwargs) m args kw st
   mcall_dict : ∀ items m args kw st, H.mcall (.host (.dict items)) m args kw st = aMcall c (.host (.dict items)) m args kw st
-  mcall_bitfield : ∀ args kw st, H.mcall (.host .self) 0x5f7365745f6174747269627574655f6269746669656c64 args kw st
-      = aMcall c (.host .self) 0x5f7365745f6174747269627574655f6269746669656c64 args kw st
+  mcall_flags : ∀ l m args kw st, H.mcall (.host (.flags l)) m args kw st = aMcall c (.host (.flags l)) m args kw st
+  mcall_int : ∀ n m args kw st, H.mcall (.int n) m args kw st = aMcall c (.int n) m args kw st
   mcall_cfgval : ∀ args kw st, H.mcall (.host .self) 0x5f7365745f6174747269627574655f63666776616c args kw st
       = aMcall c (.host .self) 0x5f7365745f6174747269627574655f63666776616c args kw st
 
